@@ -29,7 +29,7 @@ def refinement(*conditions: ConditionType) -> SymbolicExpression[T]:
     """
     new_branch = chained_logic(AND, *conditions)
     current_node = SymbolicExpression._current_parent_()
-    prev_parent = current_node._parent_
+    prev_parent = current_node._structural_parent_
     current_node._parent_ = None
     new_conditions_root = ExceptIf(SymbolicExpression._current_parent_(), new_branch)
     new_branch._node_.weight = RDREdge.Refinement
@@ -79,14 +79,14 @@ def alternative_or_next(
     """
     new_branch = chained_logic(AND, *conditions)
     current_node = SymbolicExpression._current_parent_()
-    if isinstance(current_node._parent_, (Alternative, Next)):
-        current_node = current_node._parent_
+    if isinstance(current_node._structural_parent_, (Alternative, Next)):
+        current_node = current_node._structural_parent_
     elif (
-        isinstance(current_node._parent_, ExceptIf)
-        and current_node is current_node._parent_.left
+        isinstance(current_node._structural_parent_, ExceptIf)
+        and current_node is current_node._structural_parent_.left
     ):
-        current_node = current_node._parent_
-    prev_parent = current_node._parent_
+        current_node = current_node._structural_parent_
+    prev_parent = current_node._structural_parent_
     current_node._parent_ = None
     if type_ == RDREdge.Alternative:
         new_conditions_root = Alternative(current_node, new_branch)
